@@ -2,8 +2,15 @@
 // spec/writer/MC_Writer.tla (known here by name) it does a counting run (n = number of Write calls
 // of a fault-free render, full = its output) and then runs EVERY failure index k in 1..n+1
 // (k = n+1 never fails) under every writer mode, with a writer that records each attempt and
-// fails at attempt k with the sentinel error E.  It only logs: reset / write / return events.
-// No oracle here - spec/writer/Trace_Writer.tla judges the event log.
+// fails at attempt k with the sentinel error E.  It only logs - one record per template:
+//
+//	{id, name, kind, n, full, ckind, cdetail, modelled, outsF, outsO,
+//	 runs: [{t, k, mode, w: [[len, accepted, ok, rec, via], ...], kind, detail, rec, ndefer, acc, post}, ...]}
+//
+// (n, full, ckind: the counting run; w: every Write/WriteString call in order; rec: number of panics the
+// template had recovered at that moment; via: 0 Write, 1 WriteString, 2 the Markdown converter called at a
+// macro's return, 3 the converter called for a shown Markdown value; acc: bytes accepted up to and including
+// the first failing attempt).  No oracle here - spec/writer/Trace_Writer.tla judges the log.
 //
 // writer modes:  fail   - attempt k returns (0, E); later attempts are accepted (and logged)
 //
@@ -19,6 +26,7 @@ import (
 	"fmt"
 	"io"
 	"math/rand"
+	"runtime"
 	"strconv"
 	"strings"
 
@@ -46,26 +54,23 @@ func (e *sentinel) Error() string { return e.msg }
 
 // ---- the recording / failing writer -------------------------------------------------------------
 type recW struct {
-	t      int
 	k      int
 	mode   string
 	e      error
-	nrec   *int  // the template's recover counter (sampled at each attempt)
-	inConv *bool // set by the driver's Markdown converter around its writes
-	n      int   // attempts so far
+	nrec   *int // the template's recover counter (sampled at each attempt)
+	inConv *int // set by the driver's Markdown converter around its writes (2 or 3)
+	n      int  // attempts so far
 	failed bool
 	acc    []byte // bytes accepted up to and including the (first) failing attempt
 	post   int    // bytes accepted after the first failure
-	events []any
+	w      [][5]int
 }
 
-func (w *recW) attempt(p []byte, via string) (int, error) {
+func (w *recW) attempt(p []byte, via int) (int, error) {
 	w.n++
-	if w.inConv != nil && *w.inConv {
-		via = "conv"
+	if w.inConv != nil && *w.inConv != 0 {
+		via = *w.inConv
 	}
-	ev := map[string]any{"t": w.t, "ev": "write", "i": w.n, "len": len(p), "via": via, "rec": *w.nrec}
-	w.events = append(w.events, ev)
 	if w.n == w.k || (w.failed && w.mode == "sticky") {
 		m := 0
 		if w.mode == "short" && !w.failed {
@@ -73,8 +78,7 @@ func (w *recW) attempt(p []byte, via string) (int, error) {
 			w.acc = append(w.acc, p[:m]...)
 		}
 		w.failed = true
-		ev["res"] = "fail"
-		ev["m"] = m
+		w.w = append(w.w, [5]int{len(p), m, 0, *w.nrec, via})
 		return m, w.e
 	}
 	if w.failed {
@@ -82,19 +86,18 @@ func (w *recW) attempt(p []byte, via string) (int, error) {
 	} else {
 		w.acc = append(w.acc, p...)
 	}
-	ev["res"] = "ok"
-	ev["m"] = len(p)
+	w.w = append(w.w, [5]int{len(p), len(p), 1, *w.nrec, via})
 	return len(p), nil
 }
 
 type plainW struct{ r *recW }
 
-func (w plainW) Write(p []byte) (int, error) { return w.r.attempt(p, "write") }
+func (w plainW) Write(p []byte) (int, error) { return w.r.attempt(p, 0) }
 
 type strW struct{ r *recW }
 
-func (w strW) Write(p []byte) (int, error)       { return w.r.attempt(p, "write") }
-func (w strW) WriteString(s string) (int, error) { return w.r.attempt([]byte(s), "writestring") }
+func (w strW) Write(p []byte) (int, error)       { return w.r.attempt(p, 0) }
+func (w strW) WriteString(s string) (int, error) { return w.r.attempt([]byte(s), 1) }
 
 // ---- values shown -------------------------------------------------------------------------------
 type stringerT struct{ s string }
@@ -324,19 +327,19 @@ func each(raw json.RawMessage, seed int64) []any {
 	if i := strings.IndexByte(vname, '/'); i >= 0 {
 		vname, wname = vname[:i], vname[i+1:]
 	}
-	base := func(t int, k int, mode string) map[string]any {
-		return map[string]any{"t": t, "ev": "reset", "id": c.ID, "name": c.Name, "kind": c.Kind, "k": k, "mode": mode,
-			"modelled": c.Modelled, "outsF": orEmpty(c.OutsF), "outsO": orEmpty(c.OutsO)}
-	}
 	files := scriggo.Files{}
 	for k, v := range tm.files {
 		files[k] = []byte(v)
 	}
-	var inConv bool // one template is run serially inside each()
+	var inConv int // one template is run serially inside each()
 	conv := func(src []byte, out io.Writer) error {
-		// a piecewise converter that reports the writer's error unchanged
-		inConv = true
-		defer func() { inConv = false }()
+		// a piecewise converter that reports the writer's error unchanged; it notes who called it
+		// (OpReturn of a Markdown macro, or the show of a native.Markdown value) for the log only
+		inConv = 2
+		if calledFrom("showInHTML") {
+			inConv = 3
+		}
+		defer func() { inConv = 0 }()
 		if _, err := out.Write([]byte("<md>")); err != nil {
 			return err
 		}
@@ -358,7 +361,9 @@ func each(raw json.RawMessage, seed int64) []any {
 			"rec": func() { nrec++ }, "deferred": func() { ndefer++ },
 		},
 	}
-	var events []any
+	rec := map[string]any{"id": c.ID, "name": c.Name, "kind": c.Kind, "modelled": c.Modelled,
+		"outsF": orEmpty(c.OutsF), "outsO": orEmpty(c.OutsO), "n": 0, "full": []int{}, "ckind": "nil", "cdetail": ""}
+	runs := []any{}
 	t0 := c.ID * 10000
 	template, err := func() (t *scriggo.Template, err error) {
 		defer func() {
@@ -369,16 +374,13 @@ func each(raw json.RawMessage, seed int64) []any {
 		return scriggo.BuildTemplate(files, tm.main, opts)
 	}()
 	if err != nil {
-		ev := base(t0, 0, "count")
-		ev["n"] = -1
-		ev["full"] = []int{}
-		events = append(events, ev, map[string]any{"t": t0, "ev": "return", "kind": "builderror", "detail": err.Error(), "rec": 0, "ndefer": 0, "acc": []int{}, "post": 0})
-		return events
+		rec["ckind"], rec["cdetail"], rec["runs"] = "builderror", err.Error(), runs
+		return []any{rec}
 	}
-	run := func(t, k int, mode string, n int, full []byte) (int, []byte, string) {
+	run := func(t, k int, mode string) (*recW, string, string) {
 		nrec, ndefer = 0, 0
 		e := &sentinel{"E-write-failed"}
-		w := &recW{t: t, k: k, mode: strings.TrimSuffix(mode, "+sw"), e: e, nrec: &nrec, inConv: &inConv}
+		w := &recW{k: k, mode: strings.TrimSuffix(mode, "+sw"), e: e, nrec: &nrec, inConv: &inConv, w: [][5]int{}}
 		var out io.Writer = plainW{w}
 		if strings.HasSuffix(mode, "+sw") {
 			out = strW{w}
@@ -409,20 +411,24 @@ func each(raw json.RawMessage, seed int64) []any {
 				}
 			}
 		}()
-		inConv = false
-		ev := base(t, k, mode)
-		ev["n"] = n
-		ev["full"] = drv.Ints(full)
-		events = append(events, ev)
-		events = append(events, w.events...)
-		events = append(events, map[string]any{"t": t, "ev": "return", "kind": kind, "detail": detail, "rec": nrec,
-			"ndefer": ndefer, "acc": drv.Ints(w.acc), "post": w.post})
-		return w.n, w.acc, kind
+		inConv = 0
+		if mode != "count" {
+			runs = append(runs, map[string]any{"t": t, "k": k, "mode": mode, "w": w.w, "kind": kind, "detail": detail,
+				"rec": nrec, "ndefer": ndefer, "acc": drv.Ints(w.acc), "post": w.post})
+		}
+		return w, kind, detail
 	}
 	// counting run: never fails
-	n, full, kind := run(t0, 0, "count", 0, nil)
+	cw, kind, detail := run(t0, 0, "count")
+	n := cw.n
+	rec["n"], rec["full"], rec["ckind"], rec["cdetail"] = n, drv.Ints(cw.acc), kind, detail
 	if kind != "nil" || n > 900 {
-		return events // outside the property's domain (the fault-free render itself fails): judged ref_undefined
+		// outside the property's domain (the fault-free render itself fails): no failing run is made
+		if kind == "nil" {
+			rec["ckind"] = "toolong"
+		}
+		rec["runs"] = runs
+		return []any{rec}
 	}
 	modes := allModes
 	if len(c.Modes) > 0 {
@@ -439,10 +445,27 @@ func each(raw json.RawMessage, seed int64) []any {
 			if c.K != 0 && c.K != k {
 				continue
 			}
-			run(t0+(mi+1)*1000+k, k, mode, n, full)
+			run(t0+(mi+1)*1000+k, k, mode)
 		}
 	}
-	return events
+	rec["runs"] = runs
+	return []any{rec}
+}
+
+// calledFrom reports whether a function whose name ends with name is on the call stack (log only).
+func calledFrom(name string) bool {
+	pc := make([]uintptr, 32)
+	n := runtime.Callers(2, pc)
+	fr := runtime.CallersFrames(pc[:n])
+	for {
+		f, more := fr.Next()
+		if strings.HasSuffix(f.Function, "."+name) {
+			return true
+		}
+		if !more {
+			return false
+		}
+	}
 }
 
 func orEmpty(m json.RawMessage) json.RawMessage {
